@@ -8,49 +8,69 @@ replayed on the real code by the harness (`corpus/C09/*.json`, keys in `findings
 namespace CV.Neg.C09
 open CV CV.Marshal
 
-/-- `memswap_limit: -1` (unlimited swap) is rendered as the string "-1", which `units.RAMInBytes` rejects:
-    the rendering does not load.  (`custom_roundtrip_UnitBytes` fails for negative sizes.) -/
-theorem unitbytes_negative :
-    (marshalY_UnitBytes (.int (-1))).bind decode_UnitBytes = .err "invalid-size" ∧
-    (marshalJ_UnitBytes (.int (-1))).bind decode_UnitBytes = .err "invalid-size" := by
+/-! The first group records the behaviour **before** the round-2 repairs (`fixed:` lines of `findings/C09.txt`), on the
+`_old` models kept in `Model/Marshal.lean`; the replay files `corpus/C09/neg-*.json` now pass on the repaired tree. -/
+
+/-- pre-repair: `memswap_limit: -1` is rendered as the string "-1", which `units.RAMInBytes` rejected -/
+theorem unitbytes_negative : marshalY_UnitBytes (.int (-1)) = .ok (.str "-1") ∧ ramInBytes "-1" = .err "invalid-size" := by
   constructor <;> rfl
 
-/-- an ssh key with a path is rendered in YAML as the *string* `id: path`, which the loader rejects -/
+/-- pre-repair: an ssh key with a path was rendered in YAML as the *string* `id: path`, which the loader rejects -/
 theorem sshkey_path_yaml :
-    (marshalY_SSHConfig (.seq [mkSSHKey "mykey" "./id_rsa"])).bind decode_SSHConfig = .err "invalid-ssh-key" := by
+    (marshal_SSHConfig_with marshalY_SSHKey_old (.seq [mkSSHKey "mykey" "./id_rsa"])).bind decode_SSHConfig = .err "invalid-ssh-key" := by
   rfl
 
-/-- … and in JSON as bytes that are not JSON: rendering fails -/
+/-- pre-repair: … and in JSON as bytes that are not JSON: rendering failed -/
 theorem sshkey_path_json :
-    marshalJ_SSHConfig (.seq [mkSSHKey "mykey" "./id_rsa"]) = .err "invalid-json" := by
+    marshal_SSHConfig_with marshalJ_SSHKey_old (.seq [mkSSHKey "mykey" "./id_rsa"]) = .err "invalid-json" := by
   rfl
 
-/-- a named agent key without path (`ssh: {mykey: null}`) is rendered as the bare word, which only `default` may be -/
+/-- pre-repair: a named agent key without path (`ssh: {mykey: null}`) was rendered as the bare word, which only `default` may be -/
 theorem sshkey_named_agent :
-    (marshalY_SSHConfig (.seq [mkSSHKey "mykey" ""])).bind decode_SSHConfig = .err "invalid-ssh-key" := by
+    (marshal_SSHConfig_with marshalY_SSHKey_old (.seq [mkSSHKey "mykey" ""])).bind decode_SSHConfig = .err "invalid-ssh-key" := by
   rfl
 
-/-- `env_file` entries lose their `format` in YAML (required or not) … -/
+/-- pre-repair: `env_file` entries lost their `format` in YAML (required or not) … -/
 theorem envfile_format_lost_yaml :
-    (marshalY_EnvFile (mkEnvFile "./a.env" true "raw")).bind decode_EnvFile = .ok (mkEnvFile "./a.env" true "") ∧
-    (marshalY_EnvFile (mkEnvFile "./a.env" false "raw")).bind decode_EnvFile = .ok (mkEnvFile "./a.env" false "") := by
+    (marshalY_EnvFile_old (mkEnvFile "./a.env" true "raw")).bind decode_EnvFile = .ok (mkEnvFile "./a.env" true "") ∧
+    (marshalY_EnvFile_old (mkEnvFile "./a.env" false "raw")).bind decode_EnvFile = .ok (mkEnvFile "./a.env" false "") := by
   constructor <;> rfl
 
-/-- … and in JSON when the file is required -/
+/-- pre-repair: … and in JSON when the file is required -/
 theorem envfile_format_lost_json :
-    (marshalJ_EnvFile (mkEnvFile "./a.env" true "raw")).bind decode_EnvFile = .ok (mkEnvFile "./a.env" true "") := by
+    (marshalJ_EnvFile_old (mkEnvFile "./a.env" true "raw")).bind decode_EnvFile = .ok (mkEnvFile "./a.env" true "") := by
   rfl
 
-/-- a soft/hard ulimit with a 0 is rendered in JSON without that key (omitempty) and the schema then rejects it -/
+/-- pre-repair: a soft/hard ulimit with a 0 was rendered in JSON without that key (omitempty) and the schema rejected it -/
 theorem ulimits_json_zero :
-    (marshalJ_Ulimits (mkUlimit 0 0 5)).bind decode_Ulimits = .err "schema" ∧
-    (marshalJ_Ulimits (mkUlimit 0 0 0)).bind decode_Ulimits = .err "schema" := by
+    (marshalJ_Ulimits_old (mkUlimit 0 0 5)).bind decode_Ulimits = .err "schema" ∧
+    (marshalJ_Ulimits_old (mkUlimit 0 0 0)).bind decode_Ulimits = .err "schema" := by
   constructor <;> rfl
+
+/-- pre-repair: sorting whole `host=ip` lines reordered the addresses of one host -/
+theorem hosts_reordered :
+    (marshal_HostsList_old (.map [("multi", .seq [.str "2.2.2.2", .str "1.1.1.1"])])).bind decode_HostsList
+      = .ok (.map [("multi", .seq [.str "1.1.1.1", .str "2.2.2.2"])]) := by
+  rfl
+
+/-! Still true on the current tree: hypotheses of the round-trip theorems that cannot be dropped. -/
 
 /-- a value that does not come from the decoder (single limit *and* a pair) is not preserved: the canonical-form
     hypothesis of `custom_roundtrip_Ulimits_yaml` is needed -/
 theorem ulimits_noncanonical :
     (marshalY_Ulimits (mkUlimit 5 1 2)).bind decode_Ulimits = .ok (mkUlimit 5 0 0) := by
+  rfl
+
+/-- an ssh key id containing `=` (possible through the mapping syntax) is cut at its first `=` on reload:
+    the `=`-free hypothesis of `custom_roundtrip_SSHConfig` is needed -/
+theorem sshkey_id_with_equals :
+    (marshalY_SSHConfig (.seq [mkSSHKey "a=b" "x"])).bind decode_SSHConfig = .ok (.seq [mkSSHKey "a" "b=x"]) := by
+  rfl
+
+/-- an address containing a comma is split on reload: the `ipOK` hypothesis of `custom_roundtrip_HostsList` is needed -/
+theorem hosts_comma_split :
+    (marshal_HostsList (.map [("h", .seq [.str "1.1.1.1,2.2.2.2"])])).bind decode_HostsList
+      = .ok (.map [("h", .seq [.str "1.1.1.1", .str "2.2.2.2"])]) := by
   rfl
 
 end CV.Neg.C09
